@@ -281,6 +281,9 @@ func checkC07(e *core.Env) {
 			if k >= 1 {
 				// two large messages in a row, of different sizes and contents
 				target = pick(r, 32<<10+1, 64<<10+1, 70000, 100000, 300000, 1<<20) >> uint(k-1)
+				if k == 1 && i%2 == 1 {
+					target = 5 << 19 // 2.5 MiB: cuts on field boundaries deep inside a frame of several MiB
+				}
 			}
 			var enc []byte
 			var bs []int
